@@ -23,6 +23,9 @@ def main():
           pid, "check not built yet (work in progress)")})
       continue
     mod = importlib.import_module(f"rules.{pid.lower()}")
+    for f in sorted(os.listdir(os.path.join(HERE, "rules"))):
+      if f.endswith(".py") and f[:-3].split("_")[0] == pid.lower() and f[:-3] != pid.lower():
+        importlib.import_module(f"rules.{f[:-3]}")
     rids = sorted(s.rid for s in core.RULES.values() if s.prop == pid)
     checks.append({
         "property_id": pid,
